@@ -61,6 +61,28 @@ labelstmt(struct func *f, struct scope *s)
 	stmt(f, s);
 }
 
+/* 6.8.2 Compound statement: the block items up to the closing brace */
+static void
+blockitems(struct func *f, struct scope *s)
+{
+	while (tok.kind != TRBRACE) {
+		if (!label(f, s) && !decl(s, f))
+			stmt(f, s);
+	}
+	next();
+}
+
+/*
+6.9.1 Function body: its outermost block is the block the parameters
+are declared in (6.2.1p4), so it does not open a scope of its own
+*/
+void
+funcbody(struct func *f, struct scope *s)
+{
+	expect(TLBRACE, "to begin function body");
+	blockitems(f, s);
+}
+
 /* 6.8 Statements and blocks */
 void
 stmt(struct func *f, struct scope *s)
@@ -78,12 +100,8 @@ stmt(struct func *f, struct scope *s)
 	case TLBRACE:
 		next();
 		s = mkscope(s);
-		while (tok.kind != TRBRACE) {
-			if (!label(f, s) && !decl(s, f))
-				stmt(f, s);
-		}
+		blockitems(f, s);
 		s = delscope(s);
-		next();
 		break;
 
 	/* 6.8.3 Expression statement */
